@@ -988,91 +988,31 @@ class CSSMatch(_DocumentNav):
             parent = self.get_parent(el)  # type: bs4.Tag | None
             if parent is None:
                 parent = self.create_fake_parent(el)
-            last = n.last
-            last_index = len(parent) - 1
-            index = last_index if last else 0
+
+            # Find the 1-based position of the element among the sibling elements that count:
+            # for `of S` those matching `S`, for `of-type` those of the same type. Count from the end for `last`.
             relative_index = 0
-            a = n.a
-            b = n.b
-            var = n.n
-            count = 0
-            count_incr = 1
-            factor = -1 if last else 1
-            idx = last_idx = a * count + b if var else a
-
-            # We can only adjust bounds within a variable index
-            if var:
-                # Abort if our nth index is out of bounds and only getting further out of bounds as we increment.
-                # Otherwise, increment to try to get in bounds.
-                adjust = None
-                while idx < 1 or idx > last_index:
-                    if idx < 0:
-                        diff_low = 0 - idx
-                        if adjust is not None and adjust == 1:
-                            break
-                        adjust = -1
-                        count += count_incr
-                        idx = last_idx = a * count + b if var else a
-                        diff = 0 - idx
-                        if diff >= diff_low:
-                            break
-                    else:
-                        diff_high = idx - last_index
-                        if adjust is not None and adjust == -1:
-                            break
-                        adjust = 1
-                        count += count_incr
-                        idx = last_idx = a * count + b if var else a
-                        diff = idx - last_index
-                        if diff >= diff_high:
-                            break
-                        diff_high = diff
-
-                # If a < 0, our count is working backwards, so floor the index by increasing the count.
-                # Find the count that yields the lowest, in bound value and use that.
-                # Lastly reverse count increment so that we'll increase our index.
-                lowest = count
-                if a < 0:
-                    while idx >= 1:
-                        lowest = count
-                        count += count_incr
-                        idx = last_idx = a * count + b if var else a
-                    count_incr = -1
-                count = lowest
-                idx = last_idx = a * count + b if var else a
-
-            # Evaluate elements while our calculated nth index is still in range
-            while 1 <= idx <= last_index + 1:
-                child = None  # type: bs4.element.PageElement | None
-                # Evaluate while our child index is still in range.
-                for child in self.get_children(parent, start=index, reverse=factor < 0):
-                    index += factor
-                    if not isinstance(child, bs4.Tag):
-                        continue
-                    # Handle `of S` in `nth-child`
-                    if n.selectors and not self.match_selectors(child, n.selectors):
-                        continue
-                    # Handle `of-type`
-                    if n.of_type and not self.match_nth_tag_type(el, child):
-                        continue
-                    relative_index += 1
-                    if relative_index == idx:
-                        if child is el:
-                            matched = True
-                        else:
-                            break
-                    if child is el:
-                        break
+            for child in self.get_children(parent, reverse=n.last, tags=True):
+                # Handle `of S` in `nth-child`
+                if n.selectors and not self.match_selectors(child, n.selectors):
+                    continue
+                # Handle `of-type`
+                if n.of_type and not self.match_nth_tag_type(el, child):
+                    continue
+                relative_index += 1
                 if child is el:
                     break
-                last_idx = idx
-                count += count_incr
-                if count < 0:
-                    # Count is counting down and has now ventured into invalid territory.
-                    break
-                idx = a * count + b if var else a
-                if last_idx == idx:
-                    break
+
+            # The element matches if `a * count + b` equals its position for some integer `count >= 0`.
+            a = n.a
+            b = n.b
+            if not n.n:
+                matched = a == relative_index
+            elif a == 0:
+                matched = b == relative_index
+            else:
+                diff = relative_index - b
+                matched = diff % a == 0 and diff // a >= 0
             if not matched:
                 break
         return matched
